@@ -101,6 +101,16 @@ def gen(rng, tier):
         a = "".join(rng.choice(al) for _ in range(rng.randint(1, 6)))
         b = "".join(rng.choice(al) for _ in range(rng.randint(1, 6)))
         cases.append({"a": a, "b": b, "drive": rng.choice(DRIVES)})
+    # bytes objects (pickles, the Python-object builders): the same algorithm over ints
+    small = list(_all_strings("ab", 3))
+    for a in small:
+        for b in small:
+            cases.append({"a": a, "b": b, "drive": DRIVES[len(cases) % 3], "bytes": True})
+    for _ in range(150 if quick else 3000):
+        al = rng.choice(["ab", "abc\x00\xff", "\n\t x", "abcdefgh"])
+        a = "".join(rng.choice(al) for _ in range(rng.randint(0, 9)))
+        b = "".join(rng.choice(al) for _ in range(rng.randint(0, 9)))
+        cases.append({"a": a, "b": b, "drive": rng.choice(DRIVES), "bytes": True})
     # a few non-ASCII / special characters
     for a, b in [("é", "e"), ("naïve", "naive"), ("\u0000a", "a\u0000"), ("a\nb", "ab\n"), ("😀x", "x😀"), ("\"q\"", "q")]:
         cases.append({"a": a, "b": b, "drive": "tighten"})
@@ -129,6 +139,11 @@ def _impl(case):
     from graphtage import StringNode, StringEdit
     from graphtage.edits import Insert, Match, Remove
     a, b = case["a"], case["b"]
+    if case.get("bytes"):
+        # bytes objects: the elements graphtage compares are ints; reported here as the Latin-1 characters of the same
+        # code so that model line, expectation and monitor are the ones of str
+        a, b = a.encode("latin-1"), b.encode("latin-1")
+    ch = lambda o: chr(o) if isinstance(o, int) else o
     e = StringNode(a).edits(StringNode(b))
     if isinstance(e, Match):
         cost = e.bounds()
@@ -154,13 +169,13 @@ def _impl(case):
         cc = [int(c.lower_bound), int(c.upper_bound)]
         if isinstance(sub, Match):
             if sub.from_node.object == sub.to_node.object:
-                script.append(["k", sub.from_node.object, cc])
+                script.append(["k", ch(sub.from_node.object), cc])
             else:
-                script.append(["s", sub.from_node.object, sub.to_node.object, cc])
+                script.append(["s", ch(sub.from_node.object), ch(sub.to_node.object), cc])
         elif isinstance(sub, Remove):
-            script.append(["r", sub.from_node.object, cc])
+            script.append(["r", ch(sub.from_node.object), cc])
         elif isinstance(sub, Insert):
-            script.append(["i", sub.to_insert.object, cc])
+            script.append(["i", ch(sub.to_insert.object), cc])
         else:
             script.append(["?", type(sub).__name__, cc])
     cost = e.bounds()
@@ -262,7 +277,7 @@ def classify(case, obs):
     if not isinstance(obs, dict) or obs.get("error"):
         return "error"
     if obs["kind"] == "match":
-        return "match0" if obs["cost"] == [0, 0] else "match1"
+        return ("bytes:" if case.get("bytes") else "") + ("match0" if obs["cost"] == [0, 0] else "match1")
     p = 0
     while p < min(len(a), len(b)) and a[p] == b[p]:
         p += 1
